@@ -105,3 +105,66 @@ func vhC13WorkerPool() {
 	vAssert("no-worker-after-stop", len(wp.ready) == 0 && wp.workersCount == 0)
 	wp.lock.Unlock()
 }
+
+// vhC13Lifecycle: timed histories on the virtual clock.
+//   - mixed expiry: two workers, one idle since 0.5 s and one used again at
+//     1.5 s; the cleanup round at 2 s (MaxIdleWorkerDuration 1 s) retires
+//     exactly the stale one, and the next connections are still served once each;
+//   - Stop while every worker is busy: when the workers finish, none is left.
+func vhC13Lifecycle() {
+	served := map[int]int{}
+	closed := map[int]*c12Conn{}
+	busy := 20 * time.Millisecond
+	wp := &workerPool{MaxWorkersCount: 2 + vChoose("extraWorker", 2), MaxIdleWorkerDuration: time.Second, Logger: defaultLogger}
+	wp.connState = func(net.Conn, ConnState) {}
+	wp.WorkerFunc = func(c net.Conn) error {
+		cc := c.(*c12Conn)
+		served[int(cc.ip[3])]++
+		time.Sleep(busy)
+		return nil
+	}
+	next := 0
+	serve := func() bool {
+		c := &c12Conn{ip: net.IPv4(10, 0, 0, byte(next)).To4()}
+		closed[next] = c
+		next++
+		return wp.Serve(c)
+	}
+	wp.Start()
+	allAccepted := true
+	switch vChoose("scenario", 2) {
+	case 0:
+		time.Sleep(500 * time.Millisecond)
+		allAccepted = serve() && allAccepted // two at once: two workers
+		allAccepted = serve() && allAccepted
+		time.Sleep(time.Second) // 1.5 s: one of them is used again
+		allAccepted = serve() && allAccepted
+		time.Sleep(700 * time.Millisecond) // 2.2 s: the cleanup round at 2 s has run
+		wp.lock.Lock()
+		vAssert("exactly-the-stale-worker-is-retired", len(wp.ready) == 1 && wp.workersCount == 1)
+		wp.lock.Unlock()
+		n := 1 + vChoose("connectionsAfterCleanup", 2)
+		for i := 0; i < n; i++ {
+			allAccepted = serve() && allAccepted
+		}
+		time.Sleep(100 * time.Millisecond)
+	case 1:
+		n := 1 + vChoose("busyWorkers", 2)
+		for i := 0; i < n; i++ {
+			allAccepted = serve() && allAccepted
+		}
+		time.Sleep(5 * time.Millisecond) // every worker is inside WorkerFunc
+	}
+	wp.Stop()
+	time.Sleep(100 * time.Millisecond)
+	once := allAccepted
+	for i := 0; i < next; i++ {
+		if served[i] != 1 || closed[i].closed != 1 {
+			once = false
+		}
+	}
+	vAssert("every-connection-served-once-and-closed", once)
+	wp.lock.Lock()
+	vAssert("no-worker-after-stop", len(wp.ready) == 0 && wp.workersCount == 0)
+	wp.lock.Unlock()
+}
